@@ -44,6 +44,42 @@ def programs(pt):
                           pt.Return(pt.Concat(r.get(), pt.Itob(cnt.load()), s.get())))
         return pt.Seq(pt.Log(hpl(pt.Int(2), pt.Bytes("ab"))), pt.Return(pt.Len(hpl(pt.Int(1), pt.Bytes("c"))) > pt.Int(0)))
     out.append(("mutual-plain-abi-string-output", 6, mutual_string_output, {"sabi": ("ub", "b"), "hpl": ("ub", "b")}))
+
+    # ---- routines whose body returns explicitly on EVERY arm of a two-armed If / a Cond: the body's last block is the empty
+    #      join block, yet the epilogue the compiler puts before each retsub (`load <output slot>` / `frame_bury 0`) must be there
+    def abi_output_all_arms_return_if():
+        @pt.ABIReturnSubroutine
+        def pick(flag: pt.Expr, *, output: abi.Uint64) -> pt.Expr:
+            return pt.If(flag).Then(pt.Seq(output.set(pt.Int(1)), pt.Return())).Else(pt.Seq(output.set(pt.Txn.fee() + pt.Int(2)), pt.Return()))
+        res = abi.Uint64()
+        return pt.Seq(pick(pt.Txn.fee() > pt.Int(3)).store_into(res), pt.Log(pt.Itob(res.get())), pt.Return(res.get() > pt.Int(0)))
+    out.append(("abi-output-all-arms-return-if", 6, abi_output_all_arms_return_if, {"pick": ("u", "u")}))
+
+    def abi_output_all_arms_return_cond():
+        @pt.ABIReturnSubroutine
+        def label(n: abi.Uint64, *, output: abi.String) -> pt.Expr:
+            return pt.Cond([n.get() == pt.Int(0), pt.Seq(output.set("zero"), pt.Return())],
+                           [n.get() == pt.Int(1), pt.Seq(output.set(pt.Concat(pt.Bytes("one"), pt.Itob(n.get()))), pt.Return())],
+                           [pt.Int(1), pt.Seq(output.set("many"), pt.Return())])
+        a, res = abi.Uint64(), abi.String()
+        return pt.Seq(a.set(pt.Txn.fee() % pt.Int(3)), label(a).store_into(res), pt.Log(res.get()), pt.Return(pt.Len(res.get()) > pt.Int(2)))
+    out.append(("abi-output-all-arms-return-cond", 6, abi_output_all_arms_return_cond, {"label": ("u", "b")}))
+
+    def plain_abi_locals_all_arms_return():
+        @pt.Subroutine(pt.TealType.uint64)
+        def measure(flag: pt.Expr) -> pt.Expr:
+            s, n = abi.String(), abi.Uint64()
+            return pt.Seq(s.set("abc"), n.set(pt.Txn.fee()),
+                          pt.If(flag).Then(pt.Return(pt.Len(s.get()) + n.get())).Else(pt.Return(n.get() + pt.Int(5))))
+
+        @pt.Subroutine(pt.TealType.bytes)
+        def pickb(k: pt.Expr) -> pt.Expr:
+            n, s = abi.Uint64(), abi.String()
+            return pt.Seq(n.set(k), s.set("xy"),
+                          pt.Cond([n.get() == pt.Int(0), pt.Return(s.get())], [n.get() == pt.Int(1), pt.Return(pt.Itob(n.get()))],
+                                  [pt.Int(1), pt.Return(pt.Concat(s.get(), pt.Itob(n.get())))]))
+        return pt.Seq(pt.Log(pickb(pt.Txn.fee() % pt.Int(3))), pt.Return(measure(pt.Txn.fee() > pt.Int(2)) + pt.Int(1) > pt.Int(0)))
+    out.append(("plain-abi-locals-all-arms-return", 6, plain_abi_locals_all_arms_return, {"measure": ("u", "u"), "pickb": ("u", "b")}))
     return out
 
 
@@ -62,7 +98,7 @@ def slow_programs(pt):
     return [("abiret-self-recursive-mixed-locals", 6, padded_prog, {"padded": ("ub", "u")})]
 
 
-OPTIONS = [(6, None, None), (7, True, None), (8, None, False), (9, None, False), (10, False, False), (8, None, None), (10, None, True)]
+OPTIONS = [(6, None, None), (7, True, None), (8, None, False), (9, None, False), (10, False, False), (8, None, None), (10, None, True), (8, False, True), (10, None, None)]
 
 
 class AbiRecCase:
